@@ -218,9 +218,10 @@ class Scenario:
             os.unlink(self.root + '.stdin')
 
     def run(self, fail=None, kill=None, pause=None, pause_cmd=None, trace=True, shim=True, timeout=30, tag='run', fsize=None, argv=None,
-            cwd=None):
+            cwd=None, uid=None):
         """argv: the complete argument vector after argv[0] (instead of `-f <root>/conf` + args; `@R@` is replaced); cwd: the working
-        directory of the run relative to the sandbox root (default: the root itself).  fsize=N: the kernel's file size limit (VSHIM_FSIZE): writes crossing N bytes are short, beyond it they fail with EFBIG -
+        directory of the run relative to the sandbox root (default: the root itself); uid: run as this numeric user and group (the check
+        itself must be root; used for a user without password entry).  fsize=N: the kernel's file size limit (VSHIM_FSIZE): writes crossing N bytes are short, beyond it they fail with EFBIG -
         also the write(2) calls stdio issues by itself, which `fail=` cannot reach."""
         env = {'PATH': os.environ.get('PATH', '/usr/bin:/bin'), 'HOME': os.path.join(self.root, 'home'),
                'TMPDIR': os.path.join(self.root, 'tmp'), 'LC_ALL': 'C',
@@ -233,6 +234,9 @@ class Scenario:
             env.update(PIN)
             if trace:
                 env['VSHIM_LOG'] = log
+                if uid is not None:
+                    open(log, 'w').close()
+                    os.chown(log, uid, uid)
             if fail:
                 env['VSHIM_FAIL'] = fail
             if kill is not None:
@@ -253,6 +257,7 @@ class Scenario:
         else:
             cmd = [self.tools.mdsort, '-f', os.path.join(self.root, 'conf')] + self.args
         rundir = self.root if cwd is None else os.path.join(self.root, cwd)
+        ids = {} if uid is None else {'user': uid, 'group': uid, 'extra_groups': []}
         sin = None
         if self.stdin_file and self.stdin is not None:
             sp = self.root + '.stdin'
@@ -262,10 +267,10 @@ class Scenario:
             sin = open(sp, 'rb')
         try:
             if sin is not None:
-                r = subprocess.run(cmd, stdin=sin, capture_output=True, env=env, timeout=timeout, cwd=rundir)
+                r = subprocess.run(cmd, stdin=sin, capture_output=True, env=env, timeout=timeout, cwd=rundir, **ids)
             else:
                 r = subprocess.run(cmd, input=self.stdin if self.stdin is not None else b'', capture_output=True, env=env,
-                                   timeout=timeout, cwd=rundir)
+                                   timeout=timeout, cwd=rundir, **ids)
             status, out, err = r.returncode, r.stdout, r.stderr
         except subprocess.TimeoutExpired as e:
             status, out, err = 'timeout', e.stdout or b'', e.stderr or b''
